@@ -189,9 +189,22 @@ def run_case(spec, j):
   npos = int((lab == 1).sum())
   ysolver = np.r_[np.ones(npos), -np.ones(len(lab) - npos)]
   Vs = np.vstack([V[lab == 1], V[lab == -1]])     # solver order
-  if not (np.allclose(vals['pos_vv'], V[lab == 1]) and
-          np.allclose(vals['neg_vv'], V[lab == -1])):
-    j.skip('C11', 'captured-difference-vectors-do-not-match')
+  def _same_up_to_sign(A, B):
+    A, B = np.asarray(A, float), np.asarray(B, float)
+    return A.shape == B.shape and bool(np.all(
+        np.all(np.isclose(A, B), axis=1) | np.all(np.isclose(A, -B), axis=1)))
+  if not (_same_up_to_sign(vals['pos_vv'], V[lab == 1]) and
+          _same_up_to_sign(vals['neg_vv'], V[lab == -1])):
+    if name == 'ITML':
+      # the caller's own pairs: the program is about exactly these
+      # difference vectors (in this order, similar ones first)
+      j.violated('C11.constraint-vectors',
+                 dict(det, why='the difference vectors the solver works on '
+                      'are not those of the pairs passed to fit'),
+                 mechanism='solver-sees-other-pairs')
+    else:
+      # (which pairs a supervised variant derives is C08's question)
+      j.skip('C11', 'captured-difference-vectors-do-not-match')
     return
   xi = np.r_[np.asarray(vals['pos_bhat'], float),
              np.asarray(vals['neg_bhat'], float)]
